@@ -129,4 +129,54 @@ theorem infNorm_foldl_attained (l : List Int) (c : Int) :
       right
       exact ⟨e, List.mem_cons_of_mem _ he, h⟩
 
+/-! ### iteration protocol, string conversion -/
+
+theorem getItem_nat_lt (v : List Int) (i : Nat) (h : i < v.length) : getItem v (i : Int) = .ok v[i] := by
+  have hn : normIndex v.length (i : Int) = some i := by
+    rw [normIndex_nonneg v.length i (by omega) (by omega)]; simp
+  rw [getItem_of_norm v _ _ hn]
+  simp [List.getD_eq_getElem?_getD, List.getElem?_eq_getElem h]
+
+theorem getItem_nat_ge (v : List Int) (i : Nat) (h : v.length ≤ i) : getItem v (i : Int) = .error .index := by
+  have hn : normIndex v.length (i : Int) = none := normIndex_out _ _ (Or.inr (by omega))
+  simp [getItem, hn]
+
+theorem iterFrom_spec (v : List Int) : ∀ (fuel i : Nat), i ≤ v.length → v.length - i < fuel →
+    iterFrom v i fuel = v.drop i := by
+  intro fuel
+  induction fuel with
+  | zero => intro i _ h; omega
+  | succ fuel ih =>
+    intro i hi hf
+    by_cases hlt : i < v.length
+    · simp only [iterFrom, getItem_nat_lt v i hlt]
+      rw [ih (i + 1) (by omega) (by omega)]
+      exact (List.drop_eq_getElem_cons hlt).symm
+    · have : i = v.length := by omega
+      subst this
+      simp [iterFrom, getItem_nat_ge v v.length (Nat.le_refl _)]
+
+theorem pyIter_eq (v : List Int) : pyIter v = v := by
+  unfold pyIter
+  rw [iterFrom_spec v (v.length + 1) 0 (by omega) (by omega)]
+  simp
+
+theorem foldl_join_append (d p q : String) (l : List String) :
+    l.foldl (fun s y => s ++ d ++ y) (p ++ q) = p ++ l.foldl (fun s y => s ++ d ++ y) q := by
+  induction l generalizing q with
+  | nil => simp
+  | cons a as ih =>
+    simp only [List.foldl_cons]
+    rw [show p ++ q ++ d ++ a = p ++ (q ++ d ++ a) by simp [String.append_assoc]]
+    exact ih _
+
+theorem joinLoop_eq (d : String) : ∀ (l : List String), joinLoop d l = d.intercalate l
+  | [] => by simp [joinLoop]
+  | [a] => by simp [joinLoop]
+  | a :: b :: l => by
+    have ih := joinLoop_eq d (b :: l)
+    rw [String.intercalate_cons_cons, ← ih]
+    simp only [joinLoop, List.foldl_cons]
+    rw [foldl_join_append]
+
 end DV.C20
